@@ -294,6 +294,27 @@ def reference(hist):
             prog = b"/nonexistent-nstd-verif/args-child" if t[1] == "path" else b""
             err = hx(prog + b": No such file or directory\n") if m & 2 else "-"
             out.append(f"xf ok=1 pipes={m & 7} | joined=1 exit=1 eof=1 out=- err={err} after=0")
+        elif t[0] == "late":
+            # join() returns the child's exit code whatever the parent has read before, also when the child writes to its
+            # redirected streams only after join()/the destructor was entered; the child always runs to completion
+            # (marker file) unless it is killed or the parent itself closed the read ends (then SIGPIPE: status 0)
+            order, m, code = t[1], int(t[2]) & 7, int(t[4])
+            if order in ("join", "readjoin"):
+                out.append(f"late ok=1 pipes={m} exit={code} completed=1 | joined=1 killed=0 eof=1 after=0")
+            elif order == "dtor":
+                out.append(f"late ok=1 pipes={m} exit=- completed=1 | joined=0 killed=0 eof=1 after=0")
+            elif order == "closejoin":
+                broken = bool(m & 3)
+                out.append(f"late ok=1 pipes={m} exit={0 if broken else code} completed={0 if broken else 1} | joined=1 killed=0 eof=1 after=0")
+            elif order == "kill":
+                out.append(f"late ok=1 pipes={m} exit=- completed=0 | joined=0 killed=1 eof=1 after=0")
+            else:
+                out.append("bad-op")
+        elif t[0] == "sig":
+            # observation: join() stores WEXITSTATUS also for a child terminated by a signal, i.e. 0
+            out.append(f"sig ok=1 pipes={int(t[1]) & 7} | joined=1 exit=0 after=0")
+        elif t[0] == "killbusy":
+            out.append(f"kb ok=1 pipes={int(t[1]) & 7} | killed=1 after=0")
         elif t[0] == "fdtable":
             # only the parent holds its end (read end of stdout/stderr, write end of stdin) in the member that names it,
             # only the child holds the other end, as descriptor 1 / 2 / 0
@@ -458,6 +479,25 @@ def env_histories(rng, quick):
     return hs
 
 
+def late_histories(rng, quick):
+    """join / destructor / kill while the child is still going to write; each slow op in a history of its own"""
+    hs = []
+    codes = [1, 7, 99, 255, 3, 42, 200, 128]
+    for m in range(8):
+        h = [f"late {order} {m} {100 if quick else rng.choice([60, 100, 250])} {codes[(m + i) % len(codes)]}"
+             for i, order in enumerate(("join", "dtor", "readjoin"))]
+        hs.append(h + ["fds"])
+        hs.append([f"late closejoin {m} {1500 if m & 3 else 50} {codes[m]}", "fds"])
+    for m in (0, 3, 6, 7):
+        hs.append([f"late kill {m} 5000 {codes[m]}", "fds"])
+    if not quick:
+        for m in range(8):
+            hs.append([f"late join {m} {d} {c}" for d, c in ((0, 0), (20, 5), (400, 77))] + ["fds"])
+    hs.append([f"sig {m} {sg}" for m in (0, 1, 7) for sg in (9, 15, 2, 10)] + ["fds"])
+    hs.append([f"killbusy {m}" for m in (0, 1, 2, 3, 7)] + ["fds"])
+    return hs
+
+
 def execfail_lines():
     return [f"execfail {k} {m}" for k in ("path", "empty", "blank") for m in range(8)]
 
@@ -492,11 +532,13 @@ def nontrivial(h, out):
                 _hit("split:lines-with-quote")
         elif o.startswith("x "):
             _hit("run:env-inherited" if " env=inherit" in o else "run:env-given")
+        elif o.startswith("late "):
+            _hit("late:" + l.split()[1])
         elif o.startswith("p "):
             _hit("proc:call-refused" if o.startswith("p ok=0") else "proc:call-ok")
         if o.startswith(("p ", "e ")) and len(h) >= 3:
             keys.add((tuple(h), o))
-        elif o.count(":") >= 2 or (o.startswith("s ") and not o.startswith("s 0") and not o.startswith("s 1 ")) or o.startswith(("x ", "io ", "exit ")):
+        elif o.count(":") >= 2 or (o.startswith("s ") and not o.startswith("s 0") and not o.startswith("s 1 ")) or o.startswith(("x ", "io ", "exit ", "late ", "sig ", "kb ")):
             keys.add(o.split(" | ")[0] if o.startswith("x ") else o)
     return frozenset(keys) if keys else None
 
@@ -528,7 +570,12 @@ def histories_for(ctx):
     rl, il, xl = run_lines(rng, quick), io_lines(rng, quick), exit_lines(rng, quick)
     ph = proc_histories(rng, quick)
     eh = env_histories(rng, quick)
+    lh = late_histories(rng, quick)
     hs = corpus + ph + eh + chunks(ea, 40) + chunks(ra, 40) + chunks(es + es2, 40) + chunks(rs, 40) + [c + ["fds"] for c in chunks(rl, 8) + chunks(il, 3) + chunks(xl, 8) + chunks(execfail_lines(), 6)]
+    # the histories with waiting children are spread over the list so that they land in different parallel chunks
+    step = max(1, len(hs) // (len(lh) + 1))
+    for i, h in enumerate(lh):
+        hs.insert(min(len(hs), (i + 1) * step + i), h)
     ctx.cov["rule"] = (
         f"corpus ({len(corpus)}) + args: every argv of <= {AMAX[quick]} words over {len(WORDS)} words "
         f"({', '.join(w.decode() for w in WORDS)}) with the option table a/alpha=flag, b=flag without long name, o/out=required value, "
@@ -538,7 +585,7 @@ def histories_for(ctx):
         f"({len(es)}){'' if quick else f' and <= 6 symbols over a, b, blank, quote, backslash ({len(es2)})'} + {len(rs)} random lines, 20 s watchdog; "
         f"run: {len(rl)} launches of the helper child through every start/open form x redirection mask x environment (empty=inherit, 1..3 variables) "
         f"with argv/environment echoed back; io: redirection masks 0..7 x payload sizes {SIZES} ({len(il)} runs, stdin payload written and "
-        f"stdout/stderr read to end-of-file, CRC-32 compared); exit: {len(xl)} exit codes through start(command)+join; Process object: every sequence of <= {3 if quick else 4} calls over {len(POPS)} calls (start, open with masks 0/1/7, join, kill, close, isRunning, read with stream selection, destructor, open with a failing vfork) + random sequences ({len(ph)} histories; pid/descriptor bookkeeping, results, EINVAL; every history ends with a count of leaked descriptors), a child blocked on its stdin is killed (4 masks); the descriptor tables of parent and child after open() read through /proc and compared with the descriptor-table model (8 masks); an executable that cannot be started (missing file, empty and blank command line) x masks 0..7: launch succeeds, exit code EXIT_FAILURE, `<program>: No such file or directory` on the redirected stderr; environment: {len(eh)} random histories of setEnvironmentVariable/getEnvironmentVariable/getEnvironmentVariables mixed with launches that inherit the environment. "
+        f"stdout/stderr read to end-of-file, CRC-32 compared); exit: {len(xl)} exit codes through start(command)+join; Process object: every sequence of <= {3 if quick else 4} calls over {len(POPS)} calls (start, open with masks 0/1/7, join, kill, close, isRunning, read with stream selection, destructor, open with a failing vfork) + random sequences ({len(ph)} histories; pid/descriptor bookkeeping, results, EINVAL; every history ends with a count of leaked descriptors), join/destructor/close+join/kill while the child is still going to write to its redirected streams ({len(lh)} histories: all masks, the child waits, writes one line per redirected output stream, leaves a marker file and exits with a non-zero code; join must return that code whether or not the parent has read anything), children terminated by signals, a child writing without end is killed; a child blocked on its stdin is killed (4 masks); the descriptor tables of parent and child after open() read through /proc and compared with the descriptor-table model (8 masks); an executable that cannot be started (missing file, empty and blank command line) x masks 0..7: launch succeeds, exit code EXIT_FAILURE, `<program>: No such file or directory` on the redirected stderr; environment: {len(eh)} random histories of setEnvironmentVariable/getEnvironmentVariable/getEnvironmentVariables mixed with launches that inherit the environment. "
         "distinct_nontrivial = distinct observation lines with >= 2 results / >= 2 words / a child run")
     ctx.cov["open_statements"] = [
         "run-time delivery (the child observes argv/environ as given, join returns its exit code, redirected bytes arrive intact up to "
